@@ -12,12 +12,13 @@ derives from the `intent(in)` / `intent(out)` declarations of the template:
           convergence_variables, failure_control, error_control)  -> (solved_values, convergence_results, iterations,
                                                                       solution_error_codes)
 
-Arguments are passed VERBATIM (no index is repaired: finding #27 lives in the wrapper, not here).
+Arguments are passed VERBATIM: no index is shifted or repaired here (finding #27 — zero-based convergence-variable numbers —
+lived in the wrapper and was repaired there by fix a13bd1e; reverting that fix must show up through this adapter unchanged).
 
-Determinism of an out-of-bounds read: the template reads `solved_values(convergence_variables, index)`; with the 0-based
-numbers the current wrapper passes, row 0 of column 1 lies one element BEFORE the output buffer.  f2py would leave there
+Determinism of an out-of-bounds read: the template reads `solved_values(convergence_variables, index)`; with a zero-based
+number (the pre-a13bd1e wrapper) row 0 of column 1 lies one element BEFORE the output buffer.  f2py would leave there
 whatever the allocator left; here the output buffer is carved out of a larger block whose neighbouring cells hold `GUARD`
-(= +0.0), so the run is reproducible and the Coq model (`FSolve.fread`) can mirror it.
+(= +0.0), so such a run is reproducible and the Coq model (`FSem.fread`: flat column-major addressing) mirrors it.
 
 Compile artefacts live in a cache directory owned by the caller (see `Cache`), keyed by the hash of the program text.
 """
@@ -92,7 +93,10 @@ class Cache:
 
 
 def _int(x):
-    return ctypes.byref(ctypes.c_int(int(x)))
+    x = int(x)
+    if not -2 ** 31 <= x < 2 ** 31:        # f2py refuses what does not fit a C int; ctypes would wrap silently
+        raise OverflowError('Python int too large to convert to C int')
+    return ctypes.byref(ctypes.c_int(x))
 
 
 class Engine:
